@@ -11,9 +11,9 @@ variant).  Mathlib-free, executable; driver `Drv/C39.lean`, command `c39h`.
   and a new callback runs synchronously — unless `_commit` is waiting for `consumer.when_done()`
   (`waiting`), which can only happen after `close`, when no further request is accepted.
 * `has_changed` is set by `writeChunk` at the time of the request (`SetPoint.atRequest`, the code);
-  `SetPoint.atApply` sets it when the queued write runs (seeded change C39-e).  `setAttrs` does not set
-  it in the code as it is (`sizeSets = false`; known finding, fixes/C39-setattrs-has-changed.diff makes
-  it `true`).
+  `SetPoint.atApply` sets it when the queued write runs (seeded change C39-e).  `setAttrs(size)` sets it
+  too, at the request (`sizeSets = true`, the code since fixes/C39-setattrs-has-changed.diff was committed
+  as d9a6762; `sizeSets = false` is the code before that fix).
 * `close` samples `has_changed` at the request: if it is false the close is reported successful at once
   and only `consumer.close()` is queued; otherwise `_commit` is queued: wait for `when_done()`, upload
   the whole temporary file (modelled as one atomic read: once the download is done no download write
@@ -31,12 +31,12 @@ structure HVariant where
   sizeSets : Bool          -- does `setAttrs(size)` set `has_changed`?
 deriving DecidableEq, Repr
 
-/-- the code as it is in /repo -/
-def HVariant.code : HVariant := ⟨.atRequest, false⟩
-/-- with fixes/C39-setattrs-has-changed.diff -/
-def HVariant.sizeFix : HVariant := ⟨.atRequest, true⟩
-/-- seeded change C39-e -/
-def HVariant.seedE : HVariant := ⟨.atApply, false⟩
+/-- the code as it is in /repo (with fixes/C39-setattrs-has-changed.diff, commit d9a6762) -/
+def HVariant.code : HVariant := ⟨.atRequest, true⟩
+/-- the code before that fix: `setAttrs(size)` did not set `has_changed` -/
+def HVariant.preFix : HVariant := ⟨.atRequest, false⟩
+/-- seeded change C39-e (on top of the current code) -/
+def HVariant.seedE : HVariant := ⟨.atApply, true⟩
 
 /-- a callback on `async_` -/
 inductive QOp
